@@ -180,6 +180,25 @@ def check_full_exc(ctx):
     ctx.expect(paths, ret=3)
 
 
+def check_two_sandboxes(ctx):
+    ctx.eng.max_strlen = 64
+    how = ctx.sym("how", 32)
+    ctx.assume(z3.ULE(how, 2))
+    paths = ctx.run("k_cb_two_sandboxes", [how])
+    for q in paths:
+        if q.status != "ret":
+            ctx.fail(q, "after another sandbox of the same type was destroyed, releasing and re-registering a callback of this sandbox failed: %s %s" % (q.status, q.info))
+            continue
+        lg = q.user.get("log") or []
+        l17 = [e for e in lg if e[0] == 17]
+        l18 = [e for e in lg if e[0] == 18]
+        bodies = [(conc(e[1]), conc(e[2])) for e in lg if e[0] == 10]
+        ctx.require(q, z3.BoolVal(bool(l17) and conc(l17[0][1]) == 0 and bool(l18) and conc(l18[0][1]) == 1 and conc(l18[0][2]) == 0 and bodies == [(0, 5), (0, 6)]),
+                    "owners of sandbox A stay live when sandbox B is destroyed; releasing them frees the function for re-registration and dispatch")
+    ctx.only(paths, "ret")
+    ctx.expect(paths, ret=3)
+
+
 def check_full_reuse(ctx):
     ctx.eng.max_strlen = 64
     w = ctx.sym("which", 32)
@@ -244,5 +263,6 @@ def jobs(tier, seed):
                    flags=["-D_GLIBCXX_EXTERN_TEMPLATE=0"]))
     out.append(Job("C13_full_exc", NOOP + '#include "C13_full_exc.inc"\n', [dict(name="refused registration leaves no trace (exceptions)", fn=check_full_exc, unwind=400)], native=False,
                    flags=["-D_GLIBCXX_EXTERN_TEMPLATE=0"]))
+    out.append(Job("C13_two_sandboxes", fsrc, [dict(name="noop: two live sandboxes, one destroyed", fn=check_two_sandboxes, unwind=400)], native=False))
     out.append(Job("C13_full_reuse", fsrc, [dict(name="registration after release on a full table", fn=check_full_reuse, unwind=400)], native=False))
     return out
